@@ -41,6 +41,8 @@ func cliCheck(res *sched.Result, w *cliWorld) (finds []explore.Finding, outcome 
 		return finds, "deadlock"
 	case sched.StatusDivergent:
 		return nil, "divergent"
+	case sched.StatusStuckOpen:
+		return nil, "abandoned: a thread blocked outside the scheduler's control while another could move"
 	default:
 		// (a panic, a livelock or a runaway execution is every client property's business: nothing it promises holds afterwards)
 		add("C10,C11,C12,C15/"+res.Status, "%s %v %s; %s", res.PanicVal, res.Blocked, res.Notes, w.logString())
